@@ -24,9 +24,10 @@ def Decoder.ingest_datatype_entry (entry_id : Nat) (entry_value : String) : M Je
 
 /-- `Decoder.decode_iri` (pyjelly/parse/decode.py:321) -/
 def Decoder.decode_iri (iri_prefix_id : Nat) (iri_name_id : Nat) : M Jelly.DecState String := do
-  let mut local_part : String := (← zoom (·.names) (fun s v => { s with names := v }) (LookupDecoder.decode_name_term_index iri_name_id))
-  let mut ns : String := (← zoom (·.prefixes) (fun s v => { s with prefixes := v }) (LookupDecoder.decode_prefix_term_index iri_prefix_id))
-  return (ns ++ local_part)
+  let mut prefix_ : String := default
+  let mut name : String := (← zoom (·.names) (fun s v => { s with names := v }) (LookupDecoder.decode_name_term_index iri_name_id))
+  prefix_ := (← zoom (·.prefixes) (fun s v => { s with prefixes := v }) (LookupDecoder.decode_prefix_term_index iri_prefix_id))
+  return (prefix_ ++ name)
 
 /-- `Decoder.decode_literal` (pyjelly/parse/decode.py:352) -/
 def Decoder.decode_literal (literal : PLit) : M Jelly.DecState (String × Option String × Option String) := do
@@ -41,10 +42,10 @@ def Decoder.decode_literal (literal : PLit) : M Jelly.DecState (String × Option
 
 /-- `Decoder.validate_stream_options` (pyjelly/parse/decode.py:259) -/
 def Decoder.validate_stream_options (options : Options) : M Jelly.DecState Unit := do
-  pyAssert (decide ((← get).opts.version ≥ options.version))
-  pyAssert ((← get).opts.streamName == options.streamName)
-  pyAssert ((← get).opts.logical == options.logicalType)
   pyAssert ((← get).opts.physical == options.physicalType)
+  pyAssert ((← get).opts.logical == options.logicalType)
+  pyAssert ((← get).opts.streamName == options.streamName)
+  pyAssert (decide ((← get).opts.version ≥ options.version))
   pyAssert ((← get).opts.maxPrefixes == options.maxPrefixes)
   pyAssert ((← get).opts.maxDatatypes == options.maxDatatypes)
   pyAssert ((← get).opts.maxNames == options.maxNames)
